@@ -96,6 +96,28 @@ func genC05(t *rapid.T) kit.History {
 	}
 	cfg := c05RichCfgFor(rapid.IntRange(0, 2).Draw(t, "extendedChild") == 0)
 	h := genC05Random(t, cfg, setup, pickID)
+	if rapid.IntRange(0, 3).Draw(t, "caseTwins") == 0 {
+		// one entity is linked, with single AddLink calls, to two entities whose ids differ only in letter case:
+		// the lower-case one first (it sorts after the other), then the upper-case one
+		dir := [][5]string{{"bs", "alinks", "b", "a1", "A1"}, {"as", "blinks", "a2", "b1", "B1"}}[rapid.IntRange(0, 1).Draw(t, "caseTwinSide")]
+		other := map[string]string{"bs": "as", "as": "bs"}[dir[0]]
+		m0 := replayModel(h)
+		var create []kit.Op
+		if !m0.LinkEndExists(dir[0], dir[2]) {
+			create = append(create, kit.Op{Kind: "create", Store: dir[0], ID: dir[2], Spec: &kit.EntSpec{Name: "n"}})
+		}
+		for _, id := range dir[3:] {
+			if !m0.LinkEndExists(other, id) {
+				create = append(create, kit.Op{Kind: "create", Store: other, ID: id, Spec: &kit.EntSpec{Name: "n"}})
+			}
+		}
+		if len(create) > 0 {
+			h.Txs = append(h.Txs, kit.TxSpec{Ops: create})
+		}
+		h.Txs = append(h.Txs, kit.TxSpec{Ops: []kit.Op{{Kind: "setlinks", Store: dir[0], Field: dir[1], ID: dir[2], Keys: []string{}}}},
+			kit.TxSpec{Ops: []kit.Op{{Kind: "addlink", Store: dir[0], Field: dir[1], ID: dir[2], Keys: []string{dir[3]}}}},
+			kit.TxSpec{Ops: []kit.Op{{Kind: "addlink", Store: dir[0], Field: dir[1], ID: dir[2], Keys: []string{dir[4]}}}})
+	}
 	if rapid.IntRange(0, 2).Draw(t, "shrinkTx") > 0 {
 		return h
 	}
